@@ -28,7 +28,7 @@ REQUIRED_NONZERO = {"*": ["judged_calls", "cb_events", "nonrand_subtrees", "pre_
 def budget(tier):
     if tier == "thorough":
         return {"runs": 3000, "wall": 3000}
-    return {"runs": 320, "wall": 600}
+    return {"runs": 640, "wall": 600}
 
 
 def generate(seed, tier):
